@@ -88,6 +88,49 @@ pub fn check_truth(xs: &[f64]) -> Result<(), String> {
     Ok(())
 }
 
+/// The same components supplied through iterators of different shapes: exact size (Vec), lower
+/// size bound 0 (filter), no bounds at all (from_fn), by-reference adaptor (copied). The outcome must not
+/// depend on the shape.
+pub const SUPPLY_MODES: [&str; 4] = ["vec", "filter", "from_fn", "copied"];
+pub fn supply(xs: &[f64], mode: usize) -> Box<dyn Iterator<Item = f64>> {
+    let v = xs.to_vec();
+    match mode {
+        0 => Box::new(v.into_iter()),
+        1 => Box::new(v.into_iter().filter(|_| true)),
+        2 => {
+            let mut i = 0usize;
+            Box::new(std::iter::from_fn(move || {
+                i += 1;
+                v.get(i - 1).copied()
+            }))
+        }
+        _ => {
+            let leaked: &'static [f64] = Box::leak(v.into_boxed_slice());
+            Box::new(leaked.iter().copied())
+        }
+    }
+}
+
+pub fn check_supply(xs: &[f64]) -> Result<(), String> {
+    let show = |r: &Result<String, String>| match r {
+        Ok(v) => format!("Ok({v})"),
+        Err(p) => format!("panic({p})"),
+    };
+    let t0 = quiet_catch(AssertUnwindSafe(|| format!("{:?}", Truth::try_from_floats(supply(xs, 0)).map_err(|_| ()))));
+    let b0 = quiet_catch(AssertUnwindSafe(|| format!("{:?}", Budget::try_from_floats(supply(xs, 0)).map_err(|_| ()))));
+    for mode in 1..4 {
+        let t = quiet_catch(AssertUnwindSafe(|| format!("{:?}", Truth::try_from_floats(supply(xs, mode)).map_err(|_| ()))));
+        if t != t0 {
+            return Err(format!("Truth::try_from_floats({xs:?}) supplied through a {:?} iterator gives {} but through a Vec gives {}", SUPPLY_MODES[mode], show(&t), show(&t0)));
+        }
+        let b = quiet_catch(AssertUnwindSafe(|| format!("{:?}", Budget::try_from_floats(supply(xs, mode)).map_err(|_| ()))));
+        if b != b0 {
+            return Err(format!("Budget::try_from_floats({xs:?}) supplied through a {:?} iterator gives {} but through a Vec gives {}", SUPPLY_MODES[mode], show(&b), show(&b0)));
+        }
+    }
+    Ok(())
+}
+
 pub fn check_budget(xs: &[f64]) -> Result<(), String> {
     let used = &xs[..xs.len().min(3)];
     let expect_ok = used.iter().all(|x| valid(*x));
@@ -179,6 +222,7 @@ pub fn replay_case(c: &J) -> Result<(), String> {
     match c["op"].as_str() {
         Some("truth_floats") => check_truth(&xs),
         Some("budget_floats") => check_budget(&xs),
+        Some("supply_modes") => check_supply(&xs),
         _ => check_number(xs.first().copied().unwrap_or(0.0)),
     }
 }
@@ -192,7 +236,7 @@ pub fn run(run: &Run) {
         "21-value float alphabet (-inf, negatives, -5e-324, -0.0, 0, subnormal, min normal, 0.1, \
          0.5, 1-ulp, 1, 1+ulp, 1.5, 2, 1e308, +inf, NaN, -NaN, ...); every tuple of arity 0..=4 (5 \
          thorough) through Truth/Budget::try_from_floats, arity 1..=3 through the panicking \
-         constructors, every accessor on every constructed value; is_valid / try_validate / \
+         constructors, every accessor on every constructed value; every tuple of arity <= 4 also supplied through iterators with size_hint (0, Some n) / (0, None), outcome compared with the Vec supply; is_valid / try_validate / \
          validate / root(n in 0..=4, 64, usize::MAX) / zero / one on every float; distinct = \
          tuples accepted by at least one constructor",
     );
@@ -228,6 +272,12 @@ pub fn run(run: &Run) {
         }
         if let Err(msg) = check_budget(&xs) {
             run.violation(&msg, cj("budget_floats", &xs), &[]);
+        }
+        if xs.len() <= 4 {
+            run.eval(6);
+            if let Err(msg) = check_supply(&xs) {
+                run.violation(&msg, cj("supply_modes", &xs), &[]);
+            }
         }
     });
     for x in &a {
